@@ -52,3 +52,7 @@
 #@   param headers: optional opaque
 #@   never-raises[decision-never-raises]
 #@   ensures[disabled-filter-bypasses] (not old(self._state_ok)) ==> result == False
+# Destinations excluded by the lists are never routed through the gateway (no per-request header override given).
+#@   ensures[not-on-the-allow-list-bypasses] is_none(headers) and (not is_none(self._allow_list)) and (not (host_or_ip in self._allow_list)) ==> result == False
+#@   ensures[on-the-block-list-bypasses] is_none(headers) and is_none(self._allow_list) and (not (not self._block_list)) and (host_or_ip in self._block_list) ==> result == False
+#@   ensures[lists-untouched] self._state_ok == old(self._state_ok)
